@@ -13,7 +13,9 @@ abbrev Out := Except Exn PyVal
 structure Gate where
   coord : String
   path : List PathSeg
-deriving Repr, Inhabited, DecidableEq
+  parent : PyVal := .none
+  args : List (String × PyVal) := []
+deriving Repr, Inhabited
 
 inductive TTree where
   | done (r : Out)
@@ -84,5 +86,10 @@ inductive Steps (ans : Answers) : TTree × List GErr → TTree × List GErr → 
 /-- awaiting `t`, then continuing with `k` (serial composition) -/
 def seqT (t : TTree) (k : Out → TTree) : TTree :=
   .gather [t] (fun outs => match outs with | [o] => k o | _ => .done (.error (.raw "internal" false "" [])))
+
+/-- the same children run one after the other instead of concurrently -/
+def seqList : List TTree → (List Out → TTree) → TTree
+  | [], k => k []
+  | t :: ts, k => seqT t (fun o => seqList ts (fun os => k (o :: os)))
 
 end Tart
